@@ -63,6 +63,11 @@ func validateJSONPatches(patches []byte) error {
 			return fmt.Errorf("%s: invalid path", patch.JSONPatch)
 		}
 
+		// a JSON pointer is empty or starts with '/': the JSON patch library ignores whatever precedes the first '/',
+		// so that "x/publicKey" would address the public keys
+		if path != "" && !strings.HasPrefix(path, "/") {
+			return fmt.Errorf("%s: invalid path", patch.JSONPatch)
+		}
 		if strings.HasPrefix(path, "/"+document.ServiceProperty) {
 			return fmt.Errorf("%s: cannot modify services", patch.JSONPatch)
 		}
@@ -74,6 +79,10 @@ func validateJSONPatches(patches []byte) error {
 		if fromMsg, ok := p["from"]; ok && fromMsg != nil {
 			var from string
 			if err := json.Unmarshal(*fromMsg, &from); err != nil {
+				return fmt.Errorf("%s: invalid from", patch.JSONPatch)
+			}
+
+			if from != "" && !strings.HasPrefix(from, "/") {
 				return fmt.Errorf("%s: invalid from", patch.JSONPatch)
 			}
 
